@@ -480,6 +480,29 @@ def run_program(prog, mode="do", collect=False):
     doers = [build_node(ctx, s, counter, doist) for s in prog["doers"]]
     pc = [0]
     ctx.pool = [build_node(ctx, s, pc, None, "p") for s in prog.get("pool", [])]
+    pre = prog.get("prerun")
+    if pre:
+        # the same doer objects were already used once: run them for a few cycles under ANOTHER scheduler at another
+        # tyme, forget that trace, and only then do the run that is judged (doers must take their tyme from the
+        # scheduler that runs them now)
+        first = TDoist(tock=prog["tock"], tyme=pre["tyme"], real=False)
+        tr.doist = first
+        ctx.doist = first
+        try:
+            first.do(doers=doers, limit=pre["limit"])
+        except BaseException:     # noqa: BLE001 - fault programs do not use prerun; be safe
+            pass
+        del tr.ev[:]
+        del tr.calls[:]
+        del tr.skipped[:]
+        tr.open.clear()
+        tr.raised.clear()
+        tr.own_return.clear()
+        tr.own_return.seq.clear()
+        tr.firstdone = {}
+        ctx.host_log[:] = []
+        tr.doist = doist
+        ctx.doist = doist
     out = Run()
     out.exc = None
     out.exc_obj = None
